@@ -293,6 +293,9 @@ for _n, _t in [("class", "extra"), ("header_k", "quick"), ("class_crlf", "extra"
                ("method_plain", "extra"), ("method_noargs_class", "extra"), ("method_range", "extra"), ("method_range_os", "extra"), ("method_range_os_oe", "extra"), ("method_norange_os", "extra"),
                ("bad_unspaced_arrow", "extra"), ("bad_class_no_colon", "extra"), ("bad_indent2", "extra"), ("bad_start_without_end", "extra"), ("bad_no_type", "extra"), ("bad_no_arrow", "thorough")]:
     H("C05", "mapping", "c05_" + _n, tier=_t, timeout=3000, weight=(1 if _t == "quick" else 3), what="template " + _n, **_c05)
+for _n in ["range", "range_os", "range_os_oe", "norange_os_oe", "norange_os"]:
+    H("C05", "mapping", "c05_digits_" + _n, tier="extra", timeout=3000, weight=2, what="digit-only method template " + _n + ": names concrete, every digit symbolic (usable-range rule, original lines present iff printed)",
+      **dict(_c05, vars="every digit of every number"))
 H("C05", "mapping", "c05_parse_usize_20", tier="thorough", timeout=3000, what="parse_usize on 1..20 symbolic digits: exact value or error on overflow", vars="20 digits, count", bound="<=20 digits",
   functions=["mapping::parse_usize"], stubs=["core::str::from_utf8 -> from_utf8_model", "char::is_numeric -> is_numeric_model"])
 
